@@ -458,6 +458,153 @@ fn c11_assignop_binop() {
     assert!(A::ShiftRightUnsigned.corresponding_binop() == Some(B::ShiftRightUnsigned));
 }
 
+// ---------------------------------------------------------------------------------------
+// reads through a type sigil (`$x`, `%x`): ScalarValue::{read_as_int, read_as_float, cast_by_ty_sigil}
+
+//@ C11 c11_sigil_none quick default reading a value without a sigil returns it unchanged
+#[kani::proof]
+fn c11_sigil_none() {
+    let x: i32 = kani::any();
+    let f: f32 = kani::any();
+    assert!(V::Int(x).cast_by_ty_sigil(None) == Some(V::Int(x)));
+    match V::Float(f).cast_by_ty_sigil(None) { Some(V::Float(g)) => assert!(g.to_bits() == f.to_bits()), _ => panic!("must stay a float") }
+}
+//@ C11 c11_sigil_int quick float `$x`: an int is read unchanged, a float is truncated toward zero for |x| < 2^31 (no panic elsewhere); same as int(x)
+#[kani::proof]
+fn c11_sigil_int() {
+    let x: i32 = kani::any();
+    let f: f32 = kani::any();
+    assert!(V::Int(x).cast_by_ty_sigil(Some(ast::VarSigil::Int)) == Some(V::Int(x)));
+    assert!(V::Int(x).read_as_int() == Some(x));
+    let got = match V::Float(f).cast_by_ty_sigil(Some(ast::VarSigil::Int)) { Some(V::Int(i)) => i, _ => panic!("$float must be an int") };
+    assert!(V::Float(f).read_as_int() == Some(got));
+    let fd = f as f64;
+    if fd > -2147483649.0 && fd < 2147483648.0 {
+        let g = got as f64;
+        if fd >= 0.0 { assert!(g <= fd && fd < g + 1.0); } else { assert!(g >= fd && fd > g - 1.0); }
+    }
+    // agrees with the cast operator
+    assert!(U::CastI.const_eval(V::Float(f)) == Some(V::Int(got)));
+}
+//@ C11 c11_sigil_float quick float `%x`: a float is read unchanged, an int becomes the nearest single; same as float(x)
+#[kani::proof]
+fn c11_sigil_float() {
+    let x: i32 = kani::any();
+    let f: f32 = kani::any();
+    match V::Float(f).cast_by_ty_sigil(Some(ast::VarSigil::Float)) { Some(V::Float(g)) => assert!(g.to_bits() == f.to_bits()), _ => panic!("%float must be a float") }
+    let got = match V::Int(x).cast_by_ty_sigil(Some(ast::VarSigil::Float)) { Some(V::Float(g)) => g, _ => panic!("%int must be a float") };
+    assert!(got.to_bits() == ((x as f64) as f32).to_bits());
+    match V::Int(x).read_as_float() { Some(g) => assert!(g.to_bits() == got.to_bits()), None => panic!("read_as_float(int) has a value") }
+}
+//@ C11 c11_un_sqrt thorough float sqrt(x) is the IEEE single square root (Rust's f32::sqrt as the trusted primitive)
+#[kani::proof]
+fn c11_un_sqrt() {
+    let x: f32 = kani::any();
+    let got = match U::Sqrt.const_eval(V::Float(x)) { Some(V::Float(f)) => f, _ => panic!("sqrt must be a float") };
+    assert!(same_f32(got, x.sqrt()));
+}
+
+// ---------------------------------------------------------------------------------------
+// C09 (second sentence): "For every accepted expression, the type the checker assigns equals the
+// type of the value obtained by evaluating it" - for operator expressions the checker's type is
+// ast::Expr::{binop,unop}_ty_from_arg_ty, the value is const_eval's.  Operand types are restricted
+// to the combinations the documented operator classes admit; on those, the evaluator must also
+// not reach `uncaught_type_error()` ("accepted => evaluable").
+
+use crate::value::ScalarType as T;
+
+fn arb_unop() -> U {
+    let k: u8 = kani::any();
+    kani::assume(k < 14);
+    match k {
+        0 => U::Not, 1 => U::Neg, 2 => U::BitNot, 3 => U::Sin, 4 => U::Cos, 5 => U::Tan, 6 => U::Asin,
+        7 => U::Acos, 8 => U::Atan, 9 => U::Sqrt, 10 => U::EncodeI, 11 => U::EncodeF, 12 => U::CastI, _ => U::CastF,
+    }
+}
+
+//@ C09 c09_binop_ty_int quick default every binary operator on two ints (all 19 operators, all operand pairs with a defined value): the evaluated value has the type the checker's table predicts, and evaluation never reaches the type-error panic
+#[kani::proof]
+#[kani::stub_verified(handle_shift_rhs)]
+fn c09_binop_ty_int() {
+    let op = arb_binop();
+    let a: i32 = kani::any();
+    let b: i32 = kani::any();
+    kani::assume(!(matches!(op, B::Div | B::Rem) && b == 0));
+    let v = op.const_eval(V::Int(a), V::Int(b)).expect("defined");
+    assert!(v.ty() == ast::Expr::binop_ty_from_arg_ty(op, T::Int));
+    // documented result types
+    assert!(v.ty() == T::Int);
+}
+//@ C09 c09_binop_ty_float quick float arithmetic and comparison operators on two floats (the classes that admit floats): value type equals the predicted type (float for + - * / %, int for comparisons), no type-error panic
+#[kani::proof]
+fn c09_binop_ty_float() {
+    let op = arb_binop();
+    kani::assume(matches!(op.class(), ast::OpClass::Arithmetic | ast::OpClass::Comparison));
+    kani::assume(!matches!(op, B::Rem));      // float % is fmodf: over-approximated by CBMC, typed below
+    let a: f32 = kani::any();
+    let b: f32 = kani::any();
+    let v = op.const_eval(V::Float(a), V::Float(b)).expect("float operators always have a value");
+    assert!(v.ty() == ast::Expr::binop_ty_from_arg_ty(op, T::Float));
+    let want = if matches!(op.class(), ast::OpClass::Comparison) { T::Int } else { T::Float };
+    assert!(v.ty() == want);
+    assert!(ast::Expr::binop_ty_from_arg_ty(B::Rem, T::Float) == T::Float);
+}
+//@ C09 c09_op_classes quick default the operator classes are the documented ones: + - * / % arithmetic, six comparisons, | ^ & bitwise, || && logical, << >> >>> shift; only comparisons are comparisons
+#[kani::proof]
+fn c09_op_classes() {
+    let op = arb_binop();
+    let want = match op {
+        B::Add | B::Sub | B::Mul | B::Div | B::Rem => ast::OpClass::Arithmetic,
+        B::Eq | B::Ne | B::Lt | B::Le | B::Gt | B::Ge => ast::OpClass::Comparison,
+        B::BitOr | B::BitXor | B::BitAnd => ast::OpClass::Bitwise,
+        B::LogicOr | B::LogicAnd => ast::OpClass::Logical,
+        B::ShiftLeft | B::ShiftRightSigned | B::ShiftRightUnsigned => ast::OpClass::Shift,
+    };
+    assert!(op.class() == want);
+    assert!(op.is_comparison() == (want == ast::OpClass::Comparison));
+}
+//@ C09 c09_unop_ty_int quick float unary operators that admit an int operand (- ! ~ int float $ %): value type equals the predicted type, no type-error panic
+#[kani::proof]
+fn c09_unop_ty_int() {
+    let op = arb_unop();
+    kani::assume(matches!(op, U::Neg | U::Not | U::BitNot | U::CastI | U::CastF | U::EncodeI | U::EncodeF));
+    let x: i32 = kani::any();
+    let v = match op.as_ty_sigil() {
+        Some(sigil) => V::Int(x).cast_by_ty_sigil(Some(sigil)).expect("numeric"),
+        None => op.const_eval(V::Int(x)).expect("defined"),
+    };
+    assert!(v.ty() == ast::Expr::unop_ty_from_arg_ty(op, T::Int));
+    let want = if matches!(op, U::CastF | U::EncodeF) { T::Float } else { T::Int };
+    assert!(v.ty() == want);
+}
+//@ C09 c09_unop_ty_float quick float unary operators that admit a float operand (- int float $ % sqrt): value type equals the predicted type, no type-error panic
+#[kani::proof]
+fn c09_unop_ty_float() {
+    let op = arb_unop();
+    kani::assume(matches!(op, U::Neg | U::CastI | U::CastF | U::EncodeI | U::EncodeF | U::Sqrt));
+    let x: f32 = kani::any();
+    let v = match op.as_ty_sigil() {
+        Some(sigil) => V::Float(x).cast_by_ty_sigil(Some(sigil)).expect("numeric"),
+        None => op.const_eval(V::Float(x)).expect("defined"),
+    };
+    assert!(v.ty() == ast::Expr::unop_ty_from_arg_ty(op, T::Float));
+    let want = if matches!(op, U::CastI | U::EncodeI) { T::Int } else { T::Float };
+    assert!(v.ty() == want);
+}
+//@ C09 c09_unop_ty_table quick default the remaining rows of the unary typing table: sin cos tan asin acos atan sqrt give float; - keeps its operand's type; ! ~ give int, for either operand type
+#[kani::proof]
+fn c09_unop_ty_table() {
+    let op = arb_unop();
+    let t = if kani::any() { T::Int } else { T::Float };
+    let got = ast::Expr::unop_ty_from_arg_ty(op, t);
+    let want = match op {
+        U::Neg => t,
+        U::Not | U::BitNot | U::CastI | U::EncodeI => T::Int,
+        U::Sin | U::Cos | U::Tan | U::Asin | U::Acos | U::Atan | U::Sqrt | U::CastF | U::EncodeF => T::Float,
+    };
+    assert!(got == want);
+}
+
 #[cfg(kani)]
 #[path = "/verif/.cache/playback/const_simplify.rs"]
 mod playback;
